@@ -105,6 +105,10 @@ type serviceAuthenticate struct {
 }
 
 func (s *serviceAuthenticate) Receive(m *net.Message, from Channel) error {
+	// only call and post messages invoke a method.
+	if m.Header.Type != net.Call && m.Header.Type != net.Post {
+		return nil
+	}
 	if m.Header.Action != object.AuthenticateActionID {
 		return from.SendError(m, ErrActionNotFound)
 	}
